@@ -135,6 +135,8 @@ func (ec *evalCtx) callWith(call *ast.CallExpr, recv Value, args []Value) Value 
 		}
 	} else if fv, ok := ec.eval(call.Fun).(*FuncV); ok && fv.Lit != nil {
 		return ec.callClosure(fv, call, args)
+	} else if ok && len(fv.Cands) > 0 {
+		return ec.callCandidates(fv, call, args, sig)
 	}
 	return ec.havocCall(call, fn, recv, args, sig)
 }
@@ -920,4 +922,38 @@ func (ec *evalCtx) pureResult(c *Contract, fn *types.Func, idx int, rt types.Typ
 		return App(base+".opaque", SInt, leaves...)
 	}
 	return build(rt, base)
+}
+
+// callCandidates: a call through a function value read from a literal map of
+// named functions (never assigned elsewhere): the callee is one of them; each
+// candidate's contract is applied and the results are selected by identity.
+func (ec *evalCtx) callCandidates(fv *FuncV, call *ast.CallExpr, args []Value, sig *types.Signature) Value {
+	seen := map[string]bool{}
+	var result Value
+	var ids []*Term
+	for _, cand := range fv.Cands {
+		if seen[cand.FullName()] {
+			continue
+		}
+		seen[cand.FullName()] = true
+		c := ec.e().contractForFunc(cand)
+		if c == nil {
+			panic(unsupported("function %s is stored in a dispatch table but has no contract", cand.FullName()))
+		}
+		id := App("fn:"+cand.FullName(), SInt)
+		ids = append(ids, Eq(fv.Id, id))
+		var r Value
+		if c.Inline {
+			r = ec.inlineCall(c, cand, call, nil, args)
+		} else {
+			r = ec.applyContract(c, cand, call, nil, args, sig)
+		}
+		if result == nil {
+			result = r
+		} else {
+			result = mergeValue(Eq(fv.Id, id), r, result)
+		}
+	}
+	ec.st.Assume(Or(ids...))
+	return result
 }
